@@ -196,25 +196,43 @@ func isWrapper(fn *ssa.Function) bool {
 	return strings.HasPrefix(fn.Synthetic, "wrapper") || strings.HasPrefix(fn.Synthetic, "bound") || strings.HasPrefix(fn.Synthetic, "thunk")
 }
 
-func (fr *frame) callbackFor(v ssa.Value) *CallbackSpec {
-	name := ""
-	switch x := v.(type) {
-	case *ssa.Parameter:
-		name = x.Name()
-	case *ssa.FreeVar:
-		name = x.Name()
-	case *ssa.UnOp: // load of captured variable
-		if fv, ok := x.X.(*ssa.FreeVar); ok {
-			name = fv.Name()
-		}
-		if al, ok := x.X.(*ssa.Alloc); ok {
-			name = al.Comment
+func rootName(v ssa.Value) string {
+	for i := 0; i < 8; i++ {
+		switch x := v.(type) {
+		case *ssa.Parameter:
+			return x.Name()
+		case *ssa.FreeVar:
+			return x.Name()
+		case *ssa.Alloc:
+			return x.Comment
+		case *ssa.UnOp:
+			v = x.X
+		case *ssa.IndexAddr:
+			v = x.X
+		case *ssa.FieldAddr:
+			v = x.X
+		case *ssa.Field:
+			v = x.X
+		case *ssa.ChangeType:
+			v = x.X
+		case *ssa.Phi:
+			return x.Comment
+		default:
+			return ""
 		}
 	}
+	return ""
+}
+
+func (fr *frame) callbackFor(v ssa.Value) *CallbackSpec {
+	name := rootName(v)
 	if name == "" {
 		return nil
 	}
-	return fr.callbacks[name]
+	if cb := fr.callbacks[name]; cb != nil {
+		return cb
+	}
+	return fr.callbacks["*"]
 }
 
 // call returns the result values, or nil if the call never returns.
@@ -372,6 +390,9 @@ func (fr *frame) inlineCall(callee *ssa.Function, c *ssa.CallCommon, args []T, c
 	sub.next0 = fr.next0
 	sub.modRefs = fr.modRefs
 	sub.callbacks = map[string]*CallbackSpec{}
+	if star := fr.callbacks["*"]; star != nil {
+		sub.callbacks["*"] = star
+	}
 	// callbacks passed down by parameter name are not tracked; inlined callees see none
 	for i, p := range callee.Params {
 		a := args[i]
@@ -562,23 +583,9 @@ func (fr *frame) applyCallback(cb *CallbackSpec, c *ssa.CallCommon, args []T, in
 	rts := fr.resultTypes(c)
 	switch cb.Kind {
 	case "pure":
-		// uninterpreted function of its arguments (and of nothing else)
-		var res []T
-		for i, rt := range rts {
-			name := fmt.Sprintf("cb_%s_%d", sanitize(cb.Param), i)
-			var as, ss []string
-			for _, a := range args {
-				as = append(as, a.S)
-				ss = append(ss, a.Sort)
-			}
-			rs := vc.sortOf(rt)
-			vc.decl(name, fmt.Sprintf("(declare-fun %s (%s) %s)", name, strings.Join(ss, " "), rs))
-			t := fmt.Sprintf("(%s %s)", name, strings.Join(as, " "))
-			if len(as) == 0 {
-				t = name
-			}
-			res = append(res, T{t, rs, rt})
-		}
+		// the function value applied to its arguments: an uninterpreted function of (function id, arguments)
+		fv := fr.val(c.Value)
+		res := vc.applyFuncValue(fv, c.Signature(), args)
 		if res == nil {
 			res = []T{}
 		}
@@ -606,6 +613,7 @@ func (fr *frame) applyCallback(cb *CallbackSpec, c *ssa.CallCommon, args []T, in
 
 var ghostSorts = map[string]Sort{
 	"G_visits": "(Array Int Int)",
+	"G_forked": "(Array Int Int)",
 }
 
 func (fr *frame) doMakeClosure(x *ssa.MakeClosure, st *state) {
@@ -624,6 +632,89 @@ func (fr *frame) doMakeClosure(x *ssa.MakeClosure, st *state) {
 	fr.clos[x] = cv
 	r := fr.vc.alloc(st)
 	fr.vals[x] = T{r, "Int", x.Type()}
+	fr.closureAxiom(fn, cv, r, st)
+}
+
+// closureAxiom: a closure under contract whose calls are pure behaves as its contract says:
+//   forall params :: requires ==> ensures[result := apply(closure, params)]
+// with the captured variables read at creation time. Sound as long as the captured state is not
+// modified after the closure is created (listed as an assumption).
+func (fr *frame) closureAxiom(fn *ssa.Function, cv *closureVal, id string, st *state) {
+	vc := fr.vc
+	fc := vc.P.contractFor(fn)
+	if fn.Signature.Results().Len() != 1 {
+		return
+	}
+	capDepth := len(vc.capStack)
+	cbSave0 := fr.callbacks
+	defer func() {
+		if r := recover(); r != nil {
+			vc.capStack = vc.capStack[:capDepth]
+			fr.callbacks = cbSave0
+			switch e := r.(type) {
+			case unsupported:
+				vc.notes = append(vc.notes, fmt.Sprintf("closure %s: no axiom (%s)", fn.Name(), e.msg))
+				return
+			case staleErr:
+				// the closure's contract no longer matches its code: nothing is known about the function value
+				vc.notes = append(vc.notes, fmt.Sprintf("closure %s: contract stale, no axiom (%s)", fn.Name(), e.msg))
+				return
+			}
+			panic(r)
+		}
+	}()
+	if fc == nil || len(fc.Ensures) == 0 {
+		fr.closureBodyAxiom(fn, cv, id, st)
+		return
+	}
+	vars := map[string]T{}
+	addrs := map[string]*addr{}
+	for i, fv := range fn.FreeVars {
+		if cv.bindA[i] != nil {
+			addrs[fv.Name()] = cv.bindA[i]
+		} else {
+			vars[fv.Name()] = cv.bindT[i]
+		}
+	}
+	var binders []string
+	var args []T
+	for _, p := range fn.Params {
+		vc.ctr++
+		n := fmt.Sprintf("%s!c%d", sanitize(p.Name()), vc.ctr)
+		srt := vc.sortOf(p.Type())
+		binders = append(binders, fmt.Sprintf("(%s %s)", n, srt))
+		t := T{n, srt, p.Type()}
+		vars[p.Name()] = t
+		args = append(args, t)
+	}
+	app := vc.applyFuncValue(T{id, "Int", fn.Signature}, fn.Signature, args)[0]
+	names := fc.Returns
+	if len(names) == 0 {
+		names = []string{"result"}
+	}
+	vars[names[0]] = app
+	env := &Env{vc: vc, fr: fr, pkg: pkgOf(fn), vars: vars, varAddrs: addrs, st: st, old: st, next0: st.next, calleeScope: true, qdepth: 1}
+	cbSave := fr.callbacks
+	fr.callbacks = map[string]*CallbackSpec{}
+	for _, cb := range fc.Callbacks {
+		fr.callbacks[cb.Param] = cb
+	}
+	vc.pushCapture()
+	var pre, post []string
+	for _, rq := range fc.Requires {
+		pre = append(pre, env.evalBool(rq.E))
+	}
+	for _, en := range fc.Ensures {
+		post = append(post, env.evalBool(en.E))
+	}
+	body := vc.popCapture(implies(and(pre...), and(post...)))
+	fr.callbacks = cbSave
+	if len(binders) == 0 {
+		vc.assume(st.reach, body)
+	} else {
+		vc.assume(st.reach, fmt.Sprintf("(forall (%s) (! %s :pattern (%s)))", strings.Join(binders, " "), body, app.S))
+	}
+	vc.assumedStd["closure contracts are used as axioms about the function value; captured state is assumed unmodified after closure creation"] = true
 }
 
 func (fr *frame) doGo(x *ssa.Go, st *state) {
@@ -632,8 +723,33 @@ func (fr *frame) doGo(x *ssa.Go, st *state) {
 		fr.vc.havocAll(st)
 		return
 	}
-	// fork rule: charge the spawned function like a call to its contract; footprints are
-	// required to be disjoint through the ghost state the contracts talk about.
+	// fork rule: charge the spawned function like a call to its contract; the declared footprints of
+	// all workers forked so far must be pairwise disjoint (ghost counter "forked").
+	vc := fr.vc
+	if callee := x.Common().StaticCallee(); callee != nil {
+		if fc := vc.P.contractFor(callee); fc != nil && fc.Footprint[0] != nil {
+			var args []T
+			for _, a := range x.Common().Args {
+				args = append(args, fr.val(a))
+			}
+			var cl *closureVal
+			if mc, ok := x.Common().Value.(*ssa.MakeClosure); ok {
+				cl = fr.clos[mc]
+			}
+			vars, addrs := fr.calleeEnvVars(callee, args, cl, st)
+			env := &Env{vc: vc, fr: fr, pkg: pkgOf(callee), vars: vars, varAddrs: addrs, st: st, old: st, next0: fr.next0, calleeScope: true}
+			lo := vc.define("fp_lo", "Int", env.eval(fc.Footprint[0]).S)
+			hi := vc.define("fp_hi", "Int", env.eval(fc.Footprint[1]).S)
+			vc.regHeap("G_forked", "(Array Int Int)")
+			cur := vc.heapGet(st, "G_forked")
+			fr.obligeHere("forkjoin.disjoint", "", st, fmt.Sprintf("(forall ((k Int)) (=> (and (<= %s k) (< k %s)) (= (select %s k) 0)))", lo, hi, cur), fr.pos(x.Pos()))
+			nf := vc.declareConst("G_forked", "(Array Int Int)")
+			vc.assume(st.reach, fmt.Sprintf("(forall ((k Int)) (! (= (select %s k) (+ (select %s k) (ite (and (<= %s k) (< k %s)) 1 0))) :pattern ((select %s k))))", nf, cur, lo, hi, nf))
+			st.heap["G_forked"] = nf
+		} else {
+			fr.abstract("go statement: spawned function declares no footprint (race freedom not checked)")
+		}
+	}
 	fr.call(x.Common(), nil, st, fr.pos(x.Pos()))
 	fr.vc.assumedStd["fork/join sequentialisation (disjoint footprints => any interleaving equals sequential composition)"] = true
 }
@@ -756,4 +872,78 @@ func isSmallFn(fn *ssa.Function, depth int) bool {
 		}
 	}
 	return true
+}
+
+// applyFuncValue: result terms of calling a pure function value.
+func (vc *VC) applyFuncValue(fv T, sig *types.Signature, args []T) []T {
+	var res []T
+	for i := 0; i < sig.Results().Len(); i++ {
+		rt := sig.Results().At(i).Type()
+		name := fmt.Sprintf("apply%d.%s", i, sigKey(sig))
+		as := []string{fv.S}
+		ss := []string{"Int"}
+		for _, a := range args {
+			as = append(as, a.S)
+			ss = append(ss, a.Sort)
+		}
+		rs := vc.sortOf(rt)
+		vc.decl(name, fmt.Sprintf("(declare-fun %s (%s) %s)", name, strings.Join(ss, " "), rs))
+		res = append(res, T{fmt.Sprintf("(%s %s)", name, strings.Join(as, " ")), rs, rt})
+	}
+	return res
+}
+
+func sigKey(sig *types.Signature) string {
+	var ps, rs []string
+	for i := 0; i < sig.Params().Len(); i++ {
+		ps = append(ps, shortTypeName(unalias(sig.Params().At(i).Type())))
+	}
+	for i := 0; i < sig.Results().Len(); i++ {
+		rs = append(rs, shortTypeName(unalias(sig.Results().At(i).Type())))
+	}
+	return sanitize("func(" + strings.Join(ps, ",") + ")" + strings.Join(rs, ","))
+}
+
+// closureBodyAxiom: a loop-free closure without a contract is described by its own body:
+//   forall params :: apply(closure, params) == body(params)
+func (fr *frame) closureBodyAxiom(fn *ssa.Function, cv *closureVal, id string, st *state) {
+	vc := fr.vc
+	if len(findLoops(fn)) > 0 || len(fn.Blocks) == 0 {
+		return
+	}
+	ws, all, _ := fr.fnWrites(fn, 0)
+	if all || len(ws) > 0 {
+		return
+	}
+	var binders []string
+	var args []T
+	for _, p := range fn.Params {
+		vc.ctr++
+		n := fmt.Sprintf("%s!c%d", sanitize(p.Name()), vc.ctr)
+		srt := vc.sortOf(p.Type())
+		binders = append(binders, fmt.Sprintf("(%s %s)", n, srt))
+		args = append(args, T{n, srt, p.Type()})
+	}
+	app := vc.applyFuncValue(T{id, "Int", fn.Signature}, fn.Signature, args)[0]
+	cbSave := fr.callbacks
+	// every call through a function value inside the closure is taken as a pure application
+	fr.callbacks = map[string]*CallbackSpec{"*": {Param: "*", Kind: "pure"}}
+	vc.pushCapture()
+	tmp := st.clone()
+	tmp.reach = "true"
+	sub := *fr
+	sub.inline = true
+	res := (&sub).inlineCall(fn, nil, args, cv, tmp, "")
+	fr.callbacks = cbSave
+	if len(res) != 1 {
+		vc.popCapture("true")
+		return
+	}
+	body := vc.popCapture(fmt.Sprintf("(= %s %s)", app.S, res[0].S))
+	if len(binders) == 0 {
+		vc.assume(st.reach, body)
+	} else {
+		vc.assume(st.reach, fmt.Sprintf("(forall (%s) (! %s :pattern (%s)))", strings.Join(binders, " "), body, app.S))
+	}
+	vc.assumedStd["loop-free closures without a contract are described by their body; calls through captured function values are pure; captured state is assumed unmodified after closure creation"] = true
 }
